@@ -95,12 +95,30 @@ def is_known(obj):
 
 def vars_of(I, obj):
     """Vars(e): the set of variable names e mentions (structural definition)."""
+    if "custom_vars" in obj.ghost:
+        return obj.ghost["custom_vars"](I)
     if obj.cls is None:
         return obj.ghost["vars"]
     c = obj.cls.name
     if c in ("Add", "Multiply") and is_slist(obj.fields.get("_inners")):
         from . import gmode
         sl = obj.fields["_inners"]
+        if isinstance(sl, gmode.ConsList):
+            wo = getattr(sl.rest, "without_of", None)
+            if wo is not None:
+                # the variables of a list with one entry removed: a set W(j) of which only the
+                # upper bound  W(j) subset Vars(whole list)  is stated (sound; enough for results)
+                entries, j = wo
+                W = z3.Function(f"VarsWithout[{entries.tag}]", z3.IntSort(), sym.NameSet)
+                t = W(j)
+                if not gmode.keying():
+                    whole = gmode.bigunion(I, entries.length, lambda u: vars_of(I, entries.elem(u)), f"Vars({entries.tag})")
+                    gmode.qm(I).links.append(sym.subset(t, whole))
+            else:
+                t = gmode.bigunion(I, sl.rest.length, lambda u: vars_of(I, sl.rest.elem(u)), f"Vars({obj.name})")
+            for pobj in sl.prefix:
+                t = sym.union(vars_of(I, pobj), t)
+            return t
         return gmode.bigunion(I, sl.length, lambda t: vars_of(I, sl.elem(t)), f"Vars({obj.name})")
     if c == "Constant":
         return sym.empty_set()
@@ -132,7 +150,9 @@ def den(I, obj, pt):
     key = ("den", point_name(I, pt))
     if key in obj.ghost:
         return obj.ghost[key]
-    if obj.cls is None or obj.ghost.get("opaque_den"):
+    if "custom_den" in obj.ghost:
+        d = obj.ghost["custom_den"](I, pt)          # virtual nodes of loop invariants
+    elif obj.cls is None or obj.ghost.get("opaque_den"):
         d = _child_den(I, obj, pt)
     else:
         d = _table_den(I, obj, pt)
@@ -247,10 +267,46 @@ def _table_den(I, obj, pt):
     raise KeyError(c)
 
 
+def _no_dv(name):
+    from .interp import Unsupported
+    raise Unsupported("G-mode: derivative of a node with a split operand list")
+
+
 def _gmode_den(I, obj, pt):
     """Add / Multiply of symbolic arity: big operators over the children family."""
     from . import gmode
     sl = obj.fields["_inners"]
+    if isinstance(sl, gmode.ConsList):
+        # a few known operands in front of a symbolic-length list: the sum / product splits
+        # (cons lemma); only D and V are defined for such nodes (they are results, not receivers)
+        pre = [den(I, pobj, pt) for pobj in sl.prefix]
+        rk = lambda t: den(I, sl.rest.elem(t), pt)
+        wo = getattr(sl.rest, "without_of", None)
+        if wo is not None and obj.cls.name == "Multiply":
+            # operands = known prefix ++ (a list with its j-th entry removed): the product is
+            # prefix * prodwo(j, n) (the two-argument function the spec of the product rule uses);
+            # definedness is a predicate DW(j) of which only  (all entries defined) => DW(j)  is stated
+            entries, j = wo
+            ek = lambda t: den(I, entries.elem(t), pt)
+            DW = z3.Function(f"Dwithout[{entries.tag}|{point_name(I, pt)}]", z3.IntSort(), z3.BoolSort())
+            if not gmode.keying():
+                allD = gmode.forall_const(I, entries.length, lambda t: ek(t).D, f"D({entries.tag})")
+                gmode.qm(I).links.append(z3.Implies(allD, DW(j)))
+            V = gmode.bigprod_without(I, lambda u: ek(u).V, j, entries.length)
+            for d in reversed(pre):
+                V = d.V * V
+            return Den(z3.And(*[d.D for d in pre], DW(j)), V, _no_dv)
+        D = z3.And(*[d.D for d in pre], gmode.forall_const(I, sl.rest.length, lambda t: rk(t).D, f"D({obj.name})"))
+        if obj.cls.name == "Add":
+            V = gmode.bigsum(I, lambda t: rk(t).V, sl.rest.length)
+            for d in pre:
+                V = d.V + V
+        else:
+            V = gmode.bigprod(I, lambda t: rk(t).V, sl.rest.length)
+            for d in reversed(pre):
+                V = d.V * V
+
+        return Den(D, V, _no_dv)
     k = sl.length
     dk = lambda t: den(I, sl.elem(t), pt)
     D = gmode.forall_const(I, k, lambda t: dk(t).D, f"D({obj.name})")
